@@ -4,7 +4,7 @@ export GOFLAGS=-mod=mod GOPROXY=off GOSUMDB=off GOTOOLCHAIN=local
 V=$PWD
 R=${VP_RUN_REPO:-/repo}
 (cd $V/engine && go build -o $V/bin/gosymex ./cmd/gosymex) || exit 2
-for p in ${PROPS:-C05 C16 C19 C01 C02 C04 C07 C09 C11 C13 C10 C14 C15 C17 C18 C03 C08 C06}; do
+for p in ${PROPS:-C12 C20 C19 C05 C16 C01 C02 C04 C07 C09 C11 C13 C14 C10 C15 C17 C18 C03 C08 C06}; do
   echo "=== $p thorough $(date +%T)"
   /usr/bin/time -f "wall=%es" $V/bin/gosymex check -prop $p -tier thorough -verif $V -repo $R 2>&1 | grep -v '^  violated' | cut -c1-400 | tail -15
   echo "exit=${PIPESTATUS[0]}"
